@@ -51,23 +51,6 @@ PIP_Problem::parameter_space_dimensions() const {
   return parameters;
 }
 
-inline void
-PIP_Problem::m_swap(PIP_Problem& y) {
-  using std::swap;
-  swap(external_space_dim, y.external_space_dim);
-  swap(internal_space_dim, y.internal_space_dim);
-  swap(status, y.status);
-  swap(current_solution, y.current_solution);
-  swap(input_cs, y.input_cs);
-  swap(first_pending_constraint, y.first_pending_constraint);
-  swap(parameters, y.parameters);
-  swap(initial_context, y.initial_context);
-  for (dimension_type i = CONTROL_PARAMETER_NAME_SIZE; i-- > 0; ) {
-    swap(control_parameters[i], y.control_parameters[i]);
-  }
-  swap(big_parameter_dimension, y.big_parameter_dimension);
-}
-
 inline PIP_Problem&
 PIP_Problem::operator=(const PIP_Problem& y) {
   PIP_Problem tmp(y);
